@@ -31,6 +31,11 @@ void set_step_invariant(int (*fn)(std::string& why));
 void note(const char* fmt, ...);
 // explicit scheduling point with a label (for harness-level ghost steps)
 void ghost_point();
+// between quiet_begin() and quiet_end() the calling thread's memory accesses are neither scheduling points nor
+// recorded: used by harness oracles to take an atomic snapshot of the shared state in the middle of an execution
+void quiet_begin();
+void quiet_end();
+struct Quiet { Quiet() { quiet_begin(); } ~Quiet() { quiet_end(); } };
 // id of the calling virtual thread (-1 outside the scheduled phase)
 int self();
 // monotone step counter of the current execution (number of scheduling points passed so far)
